@@ -9,6 +9,8 @@ import IweModel.Props.C07
 import IweModel.Props.C08
 import IweModel.Props.C09
 import IweModel.Props.C10
+import IweModel.Props.C11
+import IweModel.Props.C12
 import IweModel.Props.C15
 import IweModel.Props.C17
 import IweModel.Props.C18
